@@ -1,5 +1,6 @@
 """C15 — automatic reconnection restores service after loss and stops on request."""
 import itertools
+from fractions import Fraction
 
 import bvsym as sx
 from bvsym import core
@@ -140,6 +141,36 @@ def k_seq(seq, final, ping=False, on_reconnect=True, default=False):
         cover("server-close-ends")
     else:
         cover("user-close-ends")
+
+
+def k_close_sleep(lost, when):
+    """the application calls close() from another thread WHILE the loop sleeps before a reconnection attempt (or right
+    after the loss was detected): the run must end with no further connection attempt"""
+    interval = sx.sym_real("interval")
+    sx.assume(sx.And(interval > 0, interval <= 20))
+    frac = {"early": Fraction(1, 4), "late": Fraction(3, 4)}[when]
+    specs, outcomes, loss_after = _specs([lost], "close")
+    run = AppRun(specs, outcomes=outcomes, callbacks=["on_open", "on_message", "on_error", "on_close", "on_reconnect"], step_budget=3000)
+    la = loss_after[0]
+
+    def closer():
+        run.k.block(lambda: False, la + interval * frac)
+        run.app.close()
+
+    run.k.spawn(closer, "closer")
+    try:
+        run.run(reconnect=interval)
+    except simnet.KernelStuck:
+        sx.require(False, "run_forever blocked forever", lost=lost)
+        return
+    attempts = [e for e in run.k.log if e[1] == "connect"]
+    what = "%s, close() %s in the reconnect sleep" % (lost, when)
+    sx.require(run.exc is None, "run_forever raised %s" % type(run.exc).__name__, what=what)
+    sx.require(len(attempts) == 1, "the application's own close() ends the run: no further connection attempt", got=len(attempts), what=what)
+    names = run.names()
+    sx.require(names.count("on_close") == 1 and names[-1] == "on_close", "on_close once, last", what=what, n=names.count("on_close"))
+    sx.require(all(s.closed for s in run.net.socks), "all transports closed at the end", what=what)
+    cover("close-sleep")
 
 
 class FakeRel:
@@ -285,6 +316,9 @@ def obligations(tier):
                           "default; with/without on_reconnect; with/without ping thread" % cmax,
                    must_cover=["seq", "server-close-ends", "user-close-ends"], budget_s=2400 if thorough else 1200, step_budget=100000,
                    kernel=["WebSocketApp.run_forever (reconnect loop)", "handleDisconnect", "setSock", "DispatcherBase.reconnect", "Dispatcher.read"]),
+        Obligation("K-close-sleep", k_close_sleep, [dict(lost=l, when=w) for l in ("eof", "refused", "rejected", "reset") for w in ("early", "late")],
+                   bounds="first connection lost / refused / rejected; close() from a second thread at 1/4 and 3/4 of the reconnect sleep (interval a solver real)",
+                   must_cover=["close-sleep"], step_budget=100000, kernel=["DispatcherBase.reconnect", "WebSocketApp.run_forever (reconnect loop)", "WebSocketApp.close"]),
         Obligation("K-ext", k_ext, ext, bounds="external dispatcher: all sequences of <=2 failed/lost connections over {refused, rejected, end of stream}",
                    must_cover=["ext"], budget_s=1200, step_budget=100000, required=True,
                    kernel=["WrappedDispatcher.read/timeout/reconnect/send", "handleDisconnect", "closed", "setSock"]),
